@@ -140,6 +140,13 @@ def guard_kind(b):
     return ('cond', ' && '.join(re.sub(r'\s+', ' ', x) for x in rest)) if rest else ('always', '')
 
 
+def collections_counter(items):
+    out = {}
+    for x in items:
+        out[x] = out.get(x, 0) + 1
+    return out
+
+
 def coqs(s):
     return '"' + s.replace('"', '""') + '"'
 
@@ -529,6 +536,22 @@ def run(rd, emit, log, enum_values, ti_default):
     fh = strip_comments(rd('lib/base/function.hpp'))
     B('f_sb_function_default_unsafe', bool(re.search(r'bool\s+side_effect_free\s*=\s*false', fh)),
       'Function constructor: side_effect_free defaults to false')
+
+    # the Sandboxed flag of a frame is written only where frames are set up: every assignment to (or non-const handle on) a
+    # member called Sandboxed anywhere under lib/ - the model treats the flag of a frame as immutable during evaluation
+    sw = []
+    for rel in sorted(texts):
+        t = texts[rel]
+        for m in re.finditer(r'\bSandboxed\s*(=(?!=)|[-+|&^]=|\+\+|--)|(\+\+|--)\s*[\w.>-]*\bSandboxed\b|&\s*[\w.>()-]*\bSandboxed\b(?!\s*&&)|'
+                             r'std::(?:swap|exchange)\s*\([^;]*\bSandboxed\b', t):
+            pre = t[max(0, m.start() - 3):m.start()]
+            if m.group(0).startswith('&') and (pre.rstrip().endswith('&') or re.search(r'[\w)\]]\s*$', pre)):
+                continue            # `a && b.Sandboxed`, `x & y.Sandboxed`: operators, not address-of
+            sw.append(rel)
+    sw_counts = collections_counter(sw)
+    body += '(* files under lib/ with an assignment to / a handle on a member named Sandboxed: (file, number of sites) *)\n'
+    body += 'Definition f_sb_sandboxed_writes : list (string * Z) := %s.\n\n' % blist(
+        ['(%s, %d)' % (coqs(f), n) for f, n in sorted(sw_counts.items())])
 
     # does the console handler hand the result back with ALL fields (Serialize(exprResult, 0)), or does it pass its
     # sandboxed flag on so that no_user_view fields are left out
